@@ -294,7 +294,7 @@ def attr_options(opts):
 
 def add_bench(m, path, indent, raw_name, form="plain", args=None, types=None, consts=None, consts_expr=None,
               type_first=True, options=None, ignore_attr=False, name=None, extern=None, display_module=None,
-              body="hit", bencher_style=None, cost=1000, pre=None, expect_options=None):
+              body="hit", bencher_style=None, cost=1000, pre=None, expect_options=None, const_ty="usize", const_labels_given=None):
     """Emits one #[divan::bench] function into module `path` (list of module names below the crate root).
     Returns the bench dict."""
     pad = " " * indent
@@ -313,18 +313,18 @@ def add_bench(m, path, indent, raw_name, form="plain", args=None, types=None, co
         opts.append(("types", "[%s]" % ", ".join("crate::" + t for t in types)))
     const_labels = None
     if consts is not None:
-        const_labels = [str(c) for c in consts]
+        const_labels = list(const_labels_given) if const_labels_given is not None else [str(c) for c in consts]
         opts.append(("consts", consts_expr if consts_expr else "[%s]" % ", ".join(str(c) for c in consts)))
     for k, v in (options or []):
         opts.append((k, v))
     attr = "#[divan::bench(%s)]" % attr_options(opts) if opts else "#[divan::bench]"
     generics = []
     if types is not None and consts is not None:
-        generics = ["T: 'static", "const N: usize"] if type_first else ["const N: usize", "T: 'static"]
+        generics = ["T: 'static", "const N: %s" % const_ty] if type_first else ["const N: %s" % const_ty, "T: 'static"]
     elif types is not None:
         generics = ["T: 'static"]
     elif consts is not None:
-        generics = ["const N: usize"]
+        generics = ["const N: %s" % const_ty]
     gen = "<%s>" % ", ".join(generics) if generics else ""
     params = []
     if form == "bencher":
@@ -349,6 +349,11 @@ def add_bench(m, path, indent, raw_name, form="plain", args=None, types=None, co
                      "divan::counter::BytesCount::new(*v) }).bench_values(|v| { %s; v });" % (bid, bid, call))
         elif style == "refs_alloc":
             inner = ("bencher.with_inputs(|| vec![1u8; 64]).bench_refs(|v| { %s; let mut w = v.clone(); w.push(1); w });" % call)
+        elif style == "alloc_exact":
+            # timed: exactly one allocation of 32 bytes per iteration on the benchmarking thread; the input's
+            # 64-byte allocation happens before the start, the output is dropped after the end
+            inner = ("bencher.with_inputs(|| vec![1u8; 64]).bench_refs(|v| { crate::rt::quiet(%d); let mut w: Vec<u8> = Vec::with_capacity(32); "
+                     "w.extend_from_slice(&v[..8]); w });" % bid)
         elif style == "counter":
             inner = "bencher.counter(divan::counter::ItemsCount::new(7u32)).bench(|| { %s; });" % call
         else:
@@ -375,7 +380,7 @@ def add_bench(m, path, indent, raw_name, form="plain", args=None, types=None, co
         "types": list(types) if types is not None else None, "consts": const_labels, "type_first": type_first,
         "options": dict((disp(k), v) for k, v in (options or [])), "ignore": (True if ignore_attr or any(disp(k) == "ignore" and v in (None, "true") for k, v in (options or [])) else (False if any(disp(k) == "ignore" and v == "false" for k, v in (options or [])) else None)),
         "style": bencher_style if form == "bencher" else None, "body": body, "cost": cost,
-        "expect_options": expect_options,
+        "expect_options": expect_options, "const_ty": const_ty if consts is not None else None,
     }
     m.benches.append(bench)
     return bench
